@@ -5,16 +5,17 @@
    (e.g. flush: the write-delay loop keeps sending its command to tCompaction, which keeps accepting it)
    exists in the model and in the code, with probability 0.  What is proved here is the measure-based core:
 
-     GOOD steps  = steps that are not new calls (no edge out of Idle; the owner of a Transaction handle does
-                   nothing but Discard it -- its documented obligation) and in which a goroutine standing at a
-                   select that lists closeC takes the closeC case (compactionError: its closeC case);
+     GOOD steps  = steps that are not new calls (no edge out of Idle or IdleTr: in particular no help from the
+                   owner of a Transaction handle) and in which a goroutine standing at a select that lists
+                   closeC takes the closeC case (compactionError: its closeC case);
      measure     = weighted sum of the distances of all goroutines to their exits + length of tCompaction's queue.
 
      close_bounded   every good step of a reachable state with closeC closed decreases the measure: a run of
                      good steps from s has at most [measure N s] steps;
+     (Conc/LocksLate.v, with the invariant invK that rests on repair fb021ae:)
+     good_enabled    as long as some client is inside a call a good step is enabled;
      close_complete  in a reachable state with closeC closed in which no good step is enabled every client is
-                     Idle: Close has returned, and so has every other call;
-     good_enabled    (from no_deadlock) as long as some client is not Idle a good step is enabled.
+                     Idle or IdleTr: Close has returned, and so has every other call.
 
    Outside: fairness of the Go scheduler (that enabled steps are eventually taken), the random choice of select
    (that the closeC case is eventually taken), wall-clock time. *)
@@ -40,18 +41,19 @@ Definition rk_err (s : tsite) : nat :=
 
 Definition crank (pc : cpc) : nat :=
   match pc with
-  | Idle => 0 | Ret => 1 | IdleTr => 10 | RetTr => 11 | G0 => 2
+  | Idle => 0 | Ret => 1 | IdleTr => 0 | RetTr => 1 | G0 => 2
   | W0 _ | WB _ => 2 | LBa => 4 | W1 _ => 14 | W2 => 11 | W3 => 2
   | WF _ => 11 | WM _ => 10 | WMs _ => 12 | WJ _ => 6 | WR _ => 5 | WU _ => 3
   | TrigS _ s => S (rk_err s) | TrigW _ s => S (Nat.max (rk_ok s) (rk_err s))
   | Rot1 r => rk_rot1 r | Rot2 r => rk_rot2 r
   | OT0 _ => 3 | OT1 _ => 3 | OT2 _ => 20 | OT3 _ => 19 | OT4 _ => 18 | OT5 _ => 17 | OTE _ => 3 | OTfail _ => 2
+  | OT4b _ => 7 | OT6 _ => 6 | OT7 _ => 5 | OT7d _ => 4 | OT8 _ => 3
   | LB1 => 16 | LB2 => 15 | LB3 _ => 14 | LB4 => 13 | LB5 => 10
   | CM0 _ => 12 | CM1 _ => 19 | CM2 _ => 18 | CM3 _ => 17 | CM4 _ => 16 | CM5 _ _ => 15 | CM6 _ _ => 14
   | CM6c _ => 13 | CM5f _ => 13 | CM7 _ => 8 | CM8 _ => 7 | CM8b _ => 6 | CM9 _ => 4 | CM10 _ => 3
   | CMok _ => 2 | CMFu _ => 12 | CMF _ => 11
   | DC0 _ => 9 | DC1 _ => 8 | DC2 _ => 7 | DC3 _ => 6 | DC4 _ => 5
-  | TP1 => 13 | TP2 => 12 | TP3 => 11
+  | TP1 => 3 | TP2 => 2 | TP3 => 1
   | CR0 => 2 | CR1 => 2 | CR2 => 4 | CR3 => 3 | CR3e => 2 | CR6 => 3
   | RO0 => 2 | RO1 => 2 | RO2 => 3 | RO3 => 2
   | CL0 => 2 | CL1 => 13 | CL2 => 12 | CL3 => 11 | CL3b => 10 | CL4 => 4 | CL5 => 3 | CL6 => 2
@@ -82,7 +84,7 @@ Definition takes_close {P} (es : list (lbl * P)) (k : nat) : bool :=
   if has_close es then match nth_error es k with Some (l, _) => is_sc l | None => false end else true.
 
 Definition good_cli (pc : cpc) (k : nat) : bool :=
-  match pc with Idle => false | IdleTr => Nat.eqb k 1 | _ => true end.
+  match pc with Idle | IdleTr => false | _ => true end.
 
 Definition good (s : state) (a : action) : bool :=
   match a with
@@ -581,58 +583,29 @@ Proof. intros P es k pc' N. unfold takes_close. rewrite N. destruct (has_close e
 Lemma takes_close_none : forall {P} (es : list (lbl * P)) k, has_close es = false -> takes_close es k = true.
 Proof. intros P es k H. unfold takes_close. rewrite H. reflexivity. Qed.
 
-Lemma good_of_enabled : forall s a s', closeC s = true -> is_arrival fixed s a = false -> step fixed s a = Some s' ->
-  exists a' s'', good s a' = true /\ step fixed s a' = Some s''.
-Proof.
-  intros s a s' HC NA H. destruct a as [i k arg | k | k | k].
-  - simpl in H, NA.
-    destruct (has_close (cedges fixed (cli s i))) eqn:CL.
-    + destruct (has_close_idx _ CL) as (k' & pc'' & N').
-      exists (ACli i k' 0), (set_pc s i pc''). split.
-      * simpl. rewrite (takes_close_at _ _ _ N'), andb_true_r.
-        destruct (cli s i) eqn:E; try reflexivity; try discriminate NA; discriminate CL.
-      * simpl. rewrite N'. simpl. unfold guard. rewrite HC. reflexivity.
-    + destruct (cpc_eq_dec (cli s i) IdleTr) as [E | NE].
-      * exists (ACli i 1 0), (set_pc s i (DC0 XUser)). split; simpl; rewrite E; reflexivity.
-      * exists (ACli i k arg), s'. split; [| exact H]. simpl. rewrite (takes_close_none _ _ CL), andb_true_r.
-        destruct (cli s i) eqn:E; try reflexivity; [discriminate NA | congruence].
-  - simpl in H. destruct (has_close (medges (mc s))) eqn:CL.
-    + destruct (has_close_idx _ CL) as (k' & pc'' & N').
-      exists (AM k'), (set_mc s pc''). split; [simpl; eapply takes_close_at; eauto|].
-      simpl. rewrite N'. simpl. unfold guard. rewrite HC. reflexivity.
-    + exists (AM k), s'. split; [simpl; apply takes_close_none; auto | exact H].
-  - simpl in H. destruct (has_close (tedges (tc s))) eqn:CL.
-    + destruct (has_close_idx _ CL) as (k' & pc'' & N').
-      exists (AT k'), (set_tc s pc''). split; [simpl; eapply takes_close_at; eauto|].
-      simpl. rewrite N'. simpl. unfold guard. rewrite HC. reflexivity.
-    + exists (AT k), s'. split; [simpl; apply takes_close_none; auto | exact H].
-  - assert (NE : ce s <> E_done).
-    { simpl in H. unfold step_ce in H. destruct k as [|[|k]]; destruct (ce s); try discriminate; intro; discriminate. }
-    exists (ACE 1). simpl. unfold step_ce. destruct (ce s); try congruence; unfold guard; rewrite HC; eauto.
-Qed.
+(* ------------------------------------------------------------------ the code before repair fb021ae
 
-Theorem good_enabled : forall s, reachable fixed s -> closeC s = true -> pending s ->
-  exists a s', good s a = true /\ step fixed s a = Some s'.
-Proof.
-  intros s R HC P. destruct (no_deadlock s R P) as (a & NA & s' & ST). eapply good_of_enabled; eauto.
-Qed.
-
-(* where no good step is enabled every client is Idle: every call has returned, Close too *)
-Theorem close_complete : forall s, reachable fixed s -> closeC s = true ->
-  (forall a, grun s [a] = None) -> forall i, cli s i = Idle.
-Proof.
-  intros s R HC ST i. destruct (cpc_eq_dec (cli s i) Idle) as [E | NE]; auto. exfalso.
-  destruct (good_enabled s R HC (ex_intro _ i NE)) as (a & s' & GD & H).
-  specialize (ST a). simpl in ST. rewrite GD, H in ST. discriminate.
-Qed.
-
-(* the two together: from every reachable state in which closeC is closed, every run of good steps is finite
-   (bounded by the measure) and a run that cannot be extended has returned from every call *)
-Theorem close_terminates_core : forall s, reachable fixed s -> closeC s = true ->
-  exists B, forall l s', grun s l = Some s' ->
-    length l <= B /\ ((forall a, grun s' [a] = None) -> forall i, cli s' i = Idle).
-Proof.
-  intros s R HC. destruct (support_exists s R) as [N S]. exists (measure N s). intros l s' G.
-  destruct (grun_keeps l N s s' R HC S G) as (A & B & C & D). split; [lia|].
-  intro ST. apply close_complete; auto.
-Qed.
+   OpenTransaction (client 0) passes the closed test and takes the write lock; Close (client 1) sets closed, closes
+   closeC and reads db.tr == nil; OpenTransaction publishes db.tr and -- old code -- returns the transaction: Close
+   waits for the write lock, which belongs to a transaction on a closed DB, until its owner discards it.  On the
+   same schedule the repaired code stands in front of tr.lk.Lock() of its own clean-up (closeC was closed), and
+   nine good steps later both calls have returned. *)
+Definition trace_D9 : list action :=
+  [ACli 0 4 0; ACli 0 1 0; ACli 0 0 0; ACli 1 7 0; ACli 1 0 0; ACli 1 0 0; ACli 1 0 0; ACli 1 1 0;
+   ACli 0 2 0; ACli 0 1 0; ACli 0 0 0; ACli 0 0 0; AM 0; AM 0; AT 0; AT 0; AT 1; ACE 1].
+Definition trace_D9_rest : list action :=
+  [ACli 0 0 0; ACli 0 0 0; ACli 0 0 0; ACli 0 0 0; ACli 0 0 0; ACli 1 0 0; ACli 1 0 0; ACli 1 0 0; ACli 1 0 0].
+Definition summary9 (v : variant) (o : option state) :=
+  match o with
+  | Some s => Some (cli s 0, cli s 1, wl s, trown s, mc s, tc s, ce s,
+                    match step v s (ACli 1 0 0) with Some _ => true | None => false end)
+  | None => None
+  end.
+Example late_transaction_refuted :
+  summary9 unfixed_D9 (run unfixed_D9 init trace_D9) = Some (IdleTr, CL4, WTr, Some 0, MDone, TDone, E_done, false) /\
+  summary9 fixed (run fixed init trace_D9) = Some (OT6 XUser, CL4, WTr, Some 0, MDone, TDone, E_done, false) /\
+  match run fixed init trace_D9 with
+  | Some s => match grun s trace_D9_rest with Some s' => Some (cli s' 0, cli s' 1, wl s', trown s') | None => None end
+  | None => None
+  end = Some (Idle, Idle, WClosed, None).
+Proof. repeat split; vm_compute; reflexivity. Qed.
